@@ -70,6 +70,11 @@ var c18Tmpls = []c18Tmpl{
 	// set! of a symbol bound nowhere, deep inside a function: the symbol itself, not the top-level form
 	{"(defun f () (let ((a 1)) (set! nope 2))) (list (f))", "sym:nope", ""},
 	{"(defun thrower () (error 'a-err 3)) (handler-bind ((a-err (lambda (c &rest x) (ignore-errors (car 5)) (rethrow)))) (thrower))", "call:error", ""},
+	// an OPERATOR refusing its arguments after it has evaluated one of its sub-forms: its own call expression
+	{"(defun h () (dotimes (i \"a\") 1)) (list (h))", "call:dotimes", "C18-operator-refusal-located-at-subform"},
+	{"(defun h () (let ((true (+ 1 2))) 2)) (list (h))", "call:let", "C18-operator-refusal-located-at-subform"},
+	{"(defun h () (assert (= 1 2) \"msg {}\" 5)) (list (h))", "call:assert", "C18-operator-refusal-located-at-subform"},
+	{"(defun h () (let* ((a (+ 1 1)) (b)) a)) (list (h))", "call:let*", ""},
 	// a user function REFUSING its arguments (every way argument binding can fail): the call expression
 	{"(defun f (x &key a b) x) (defun g () (+ 1 (f 1 2 3))) (g)", "call:f", ""},
 	{"(defun f (x &key a b) x) (list (f 1 :a))", "call:f", ""},
